@@ -39,4 +39,5 @@ def with_state_lint(prop, run):
             shared.local_memo_tables(check, rels)
             shared.no_live_view_in_mutating_loop(check, rels)
             shared.no_shared_object_filled_per_iteration(check, rels)
+            shared.no_reused_one_shot_iterator(check, rels)
     return wrapped
